@@ -237,7 +237,7 @@ def run_harness(sub, args, race=False, timeout=1800, env_extra=None, input=None)
         p = subprocess.run(cmd, env=env, stdout=subprocess.PIPE, stderr=subprocess.PIPE, text=True, timeout=timeout, input=input)
     except subprocess.TimeoutExpired:
         raise ToolFailure("harness %s timed out after %ss" % (sub, timeout))
-    lines = [l for l in p.stdout.splitlines() if l.strip()]
+    lines = [l for l in p.stdout.split("\n") if l.strip()]
     if p.returncode not in (0, 1) or not lines:
         raise ToolFailure("harness %s failed rc=%d\nstdout: %s\nstderr: %s" % (sub, p.returncode, p.stdout[-2000:], p.stderr[-4000:]))
     try:
